@@ -52,7 +52,7 @@ package eventlog
 //@   modifies rdLeft
 //@   requires evt != nil
 //@   sweep[C07,C18] nil index slice div typeassert panic makeslice nilmap
-//@   ensures[C18] err == nil ==> drains == old(drains) + 1 && forall(k, 0 <= k && k < len(rest) ==> bytesAt(rest, k) == 0)
+//@   ensures[C18] err == nil ==> drained && forall(k, 0 <= k && k < len(rest) ==> bytesAt(rest, k) == 0)
 //@   loop 1 invariant forall(k, 0 <= k && k <= rangeindex ==> bytesAt(rest, k) == 0)
 
 // Size-prefixed strings: no input (a zero size included) makes the decoder index outside what it read.
